@@ -256,13 +256,13 @@ func runC02(c *Ctx) {
 	next := func() int { i++; return i }
 	type rp struct{ hosts, conns, clients, w, rounds, errEvery int }
 	rounds := []rp{
-		{1, 1, 8, 200, 14, 7},   // 1600 in flight on ONE backend connection, 22400 requests = 10.9x recycling of 2048 ids
-		{1, 1, 2, 1200, 6, 0},   // 2400 > 2048: exhaustion burst every round
+		{1, 1, 8, 200, 14, 7}, // 1600 in flight on ONE backend connection, 22400 requests = 10.9x recycling of 2048 ids
+		{1, 1, 2, 1200, 6, 0}, // 2400 > 2048: exhaustion burst every round
 		{2, 2, 16, 100, 6, 5},
 		{3, 1, 4, 512, 5, 11},
 	}
 	if !c.Quick() {
-		for k := 0; k < 60; k++ {
+		for k := 0; k < 400; k++ {
 			rng := c.Rng(500 + k)
 			rounds = append(rounds, rp{1 + rng.Intn(3), 1 + rng.Intn(2), 2 + rng.Intn(15), 50 + rng.Intn(463), 10 + rng.Intn(30), rng.Intn(12)})
 		}
@@ -278,7 +278,7 @@ func runC02(c *Ctx) {
 		{Hosts: 3, Conns: 1, Clients: 12, PerClient: 800, Window: 256, DeathRate: 8, SameStreams: true, Silence: true},
 	}
 	if !c.Quick() {
-		for k := 0; k < 20; k++ {
+		for k := 0; k < 140; k++ {
 			rng := c.Rng(900 + k)
 			storms = append(storms, stormParams{Hosts: 1 + rng.Intn(4), Conns: 1 + rng.Intn(2), Clients: 2 + rng.Intn(15), PerClient: 1000 + rng.Intn(3000), Window: 64 + rng.Intn(1900),
 				DeathRate: rng.Intn(15), SameStreams: true, Silence: rng.Intn(2) == 0, Compress: rng.Intn(2) == 0})
@@ -291,14 +291,14 @@ func runC02(c *Ctx) {
 			storm(c, k, sp, []string{"C02"})
 		}
 	}
-	for j := 0; j < c.Pick(2, 12); j++ {
+	for j := 0; j < c.Pick(2, 48); j++ {
 		k := next()
 		if c.Mine(k) {
 			lateHeartbeatReply(c, j)
 		}
 	}
 	yields := []time.Duration{0, 200 * time.Microsecond, time.Millisecond}
-	for j := 0; j < c.Pick(6, 60); j++ {
+	for j := 0; j < c.Pick(6, 600); j++ {
 		k := next()
 		if c.Mine(k) {
 			reprepareRace(c, j, 2+j%2, 1+j%2, 50, yields[j%3])
